@@ -313,7 +313,9 @@ func runC14(rep Rep, w World) {
 	s := runHistory(rep, w, func(v *View, op *Op, s *Sys) {
 		// "rolling updates still take down one pod at a time": the rolling-update discipline of C07 applies
 		// under Parallel as well (an update delete needs every higher desired pod up to date and healthy)
-		monC07(rep, v)
+		if len(v.Odd) == 0 { // a stray S-0<k> may hold slot k: "every higher desired pod is healthy" cannot be read off the canonical names then
+			monC07(rep, v)
+		}
 		k, m, by := monC14(rep, v)
 		if k+m >= 2 && by {
 			nt = true
@@ -338,6 +340,7 @@ var c14Opts = func() worldOpts {
 		w[k] = v
 	}
 	w[OpClaimTerminating] = 1
+	w[OpAddStrayPod] = 1
 	o.weights = w
 	return o
 }()
